@@ -22,6 +22,7 @@ Definition is_identifier (s : string) : bool :=
   end.
 
 Local Open Scope string_scope.
+Local Open Scope list_scope.
 
 Section Valid.
   Context {N : NumOps}.
